@@ -28,6 +28,7 @@ TRUSTED = ["Coq 8.16.1 kernel + vm_compute", "hand-written model Model/Skeleton.
            "translate/budget.py (fail-closed ast whitelist over bads.py and init_sobol.py; validated on every run: its IR composed in Python against the real _init_optimization_, "
            "the log2 expression evaluated by NumPy against Z.log2_up on -3..3000 and 2^k-1,2^k,2^k+1 up to 2^48+1)",
            "SciPy Sobol.random_base2(m) returns 2^m rows; contraints_check only removes rows (its output size is an oracle input, 0 <= survivors <= rows is checked on every recorded call)",
+           "translate/loop.py regenerates the decision logic of optimize() / _search_step_ / _poll_step_ on every run (gen/Src_loop.v; fail-closed ast whitelist, writer and call-site census over the package); validated each run: the generated definitions evaluated by Coq on every recorded loop iteration of this panel (harness/comp_loop.py)",
            "the component tie stubs pybads.bads.bads.init_and_train_gp from outside (the GP trainer does not touch the budget; the run-level tie uses the unstubbed code)"]
 ASSUMPTIONS = ["max_iter >= 1; options are integer valued where the code compares them with ==; the target and the GP engine return",
                "the capped fun_eval_start is at most 2^48 (int(np.ceil(np.log2(x))) = Z.log2_up x fails from x = 2^49+1 on: binary64 log2 rounds down; a design of that size cannot be evaluated)",
